@@ -61,7 +61,11 @@ Section Feistel.
   Proof.
     unfold crypt. destruct (Z.odd (zlen payload)) eqn:Odd; [discriminate|].
     destruct (int_to_be id 2) as [idb|]; cbn [bind]; [|discriminate].
-    destruct (e <? 0); [discriminate|].
+    destruct ((e <? 0) && (match idxs with [] => false | _ => true end)) eqn:Eneg; [discriminate|].
+    assert (Eneg' : (e <? 0) && (match rev idxs with [] => false | _ => true end) = false).
+    { destruct (e <? 0); [|reflexivity]. cbn [andb] in *. destruct idxs as [|i idxs']; [reflexivity|].
+      discriminate. }
+    rewrite Eneg'.
     set (half := Z.to_nat (zlen payload / 2)).
     assert (Hev : zlen payload = 2 * (zlen payload / 2)).
     { pose proof (Z.div_mod (zlen payload) 2 ltac:(lia)) as D.
@@ -115,7 +119,7 @@ Section Feistel.
     rewrite <- Z.negb_even, Hev. cbn [negb].
     unfold int_to_be. change (pow256 2) with 65536.
     destruct (0 <=? id) eqn:E1; destruct (id <? 65536) eqn:E2; try lia. cbn [andb bind].
-    destruct (e <? 0) eqn:E3; [lia|].
+    destruct (e <? 0) eqn:E3; [lia|]. cbn [andb].
     generalize (Z.shiftl 2500 e) (zlen payload / 2) (s_shamir ++ rev (to_le 2 id)).
     intros iters half salt.
     assert (G : forall idxs l r, exists l' r',
